@@ -64,7 +64,7 @@ def build_access(rng, val, ops_used, depth=0):
                     break
             if sub is None:
                 return None, None
-        op = str(rng.choice(["idx", "negidx", "slice", "slice_step", "iter", "unpack", "extend_right", "extend_left", "ctor_tuple", "ctor_list", "len_guard", "contains", "nested_slice", "reversed", "extend_left_traced", "extend_right_traced", "extend_left_traced3", "ctor_tuple3"]))
+        op = str(rng.choice(["idx", "negidx", "slice", "slice_step", "iter", "unpack", "extend_right", "extend_left", "ctor_tuple", "ctor_list", "len_guard", "contains", "nested_slice", "reversed", "extend_left_traced", "extend_right_traced", "extend_left_traced3", "ctor_tuple3", "extend_right_empty", "extend_left_empty", "extend_empty_slice"]))
         ops_used.append(op)
         extra = 0.77
         if op == "idx":
@@ -99,6 +99,12 @@ def build_access(rng, val, ops_used, depth=0):
             f = (lambda c: (c + (extra, 1.0))[i]) if isinstance(val, tuple) else (lambda c: (c + [extra, 1.0])[i])
         elif op == "extend_left":
             f = (lambda c: ((extra, 2.0) + c)[i + 2]) if isinstance(val, tuple) else (lambda c: ([extra, 2.0] + c)[i + 2])
+        elif op == "extend_right_empty":
+            f = (lambda c: (c + ())[i]) if isinstance(val, tuple) else (lambda c: (c + [])[i])
+        elif op == "extend_left_empty":
+            f = (lambda c: (() + c)[i]) if isinstance(val, tuple) else (lambda c: ([] + c)[i])
+        elif op == "extend_empty_slice":
+            f = lambda c: (c + c[n:])[i]
         elif op == "extend_right_traced":
             # traced elements appended: (c + (c[j], c[i]))[n + 1]
             j = int(rng.integers(0, n))
@@ -264,6 +270,11 @@ def run_case(res, case):
     if case["out"] == "scalar":
         F_ag = lambda c: f(anp, c)
         F_np = lambda c: f(onp, c)
+    elif case["out"] == "dict":
+        import autograd.builtins as ab
+
+        F_ag = lambda c: ab.dict({"w": f(anp, c), "b": f(anp, c) * 3.0 + 1.0, "k": anp.sin(f(anp, c))})
+        F_np = lambda c: {"w": f(onp, c), "b": f(onp, c) * 3.0 + 1.0, "k": onp.sin(f(onp, c))}
     else:
         # container-valued output
         import autograd.builtins as ab
@@ -277,6 +288,9 @@ def run_case(res, case):
             h0 = common.vhash(val)
             vjp, yA = make_vjp(F_ag, val)
             g = common.rand_like(rng, y0)
+            if isinstance(g, dict):
+                # the caller's cotangent lists the keys in another order than the output was built
+                g = {k: g[k] for k in reversed(list(g))}
             r = vjp(g if case["out"] != "scalar" else float(g))
         except Exception as e:
             return viol("exception:" + type(e).__name__, traceback.format_exc()[-400:])
@@ -448,7 +462,7 @@ def run_shard(pid, tier, seed, idx, n):
     res = _new_result()
     total = 4000 if tier == "quick" else 60000
     for i in range(idx, total, n):
-        case = {"kind": "program", "seed": [seed, i, 47], "cx": i % 4 == 3, "out": "scalar" if i % 5 else "container"}
+        case = {"kind": "program", "seed": [seed, i, 47], "cx": i % 4 == 3, "out": "scalar" if i % 5 else ("container" if i % 10 else "dict")}
         try:
             run_case(res, case)
         except Exception:
